@@ -338,18 +338,24 @@ def choiceLoader : Loader Store Handle where
       | none => .error .notFound
   uptodate s _ h := .ok (s h.idx h.full == some h.ver)
 
+/-- the entry the namespace-aware test loader looks up: `f"{ns}/{name}"`, keyword argument first,
+then the context global, else the bare name -/
+def nsFull (name : Str) (ctx : Option (Option Str)) (kw : Option Str) : Str :=
+  match kw with
+  | some ns => ns ++ '/' :: name
+  | none =>
+    match ctx with
+    | some (some ns) => ns ++ '/' :: name
+    | _ => name
+
 /-- the namespace-aware test loader of the harness (`NsLoader`): a dictionary keyed by
-`f"{ns}/{name}"` (or `name` without a namespace); keyword argument first, then context global. -/
+`f"{ns}/{name}"` (or `name` without a namespace). -/
 def nsLoader : Loader Store Handle where
   getSource s m name ctx kw :=
-    let full := match kw with
-      | some ns => ns ++ '/' :: name
-      | none => match ctx with
-        | some (some ns) => ns ++ '/' :: name
-        | _ => name
-    match s 0 full with
+    match s 0 (nsFull name ctx kw) with
     | none => .error .notFound
-    | some v => .ok ((full, v), full, { idx := 0, full := full, ver := v, mode := m })
+    | some v => .ok ((nsFull name ctx kw, v), nsFull name ctx kw,
+                     { idx := 0, full := nsFull name ctx kw, ver := v, mode := m })
   uptodate s _ h := .ok (s h.idx h.full == some h.ver)
 
 end LiquidVerif.CacheLoader
